@@ -838,6 +838,66 @@ def check_adaptive_flag_declared(rep: Report, ix) -> None:
     rep.floor("solver make_stepper methods publishing a time step", n, 2)
 
 
+INTERRUPTS = "pde/trackers/interrupts.py"
+
+
+def check_interrupt_copies(rep: Report, ix) -> None:
+    """TrackerCollection.from_data hands every tracker after the first a `.copy()` of an interrupt object it has
+    already seen, so the copy decides when those trackers fire.  For every interrupt class the resolved `copy` is
+    either a generic copy of the whole object (copy.copy / copy.deepcopy of self: every attribute is carried) or a
+    reconstruction `self.__class__(...)` that passes *every* parameter of the resolved constructor, each from the
+    attribute of the same name (or a copy of it) -- a parameter that is left out silently falls back to its default
+    (a shared `ConstantInterrupts(dt, t_start)` would fire from the start of the simulation for the second tracker)."""
+    base = ix.cls(INTERRUPTS, "InterruptsBase")
+    classes = [c for c in ix.subclasses(base) if c.module.rel == INTERRUPTS]
+    rep.floor("interrupt classes", len(classes), 5)
+    # the cooperating site: shared interrupt objects are copied
+    fd = ix.func(BASE, "TrackerCollection.from_data")
+    copies = [x for x in ast.walk(fd.node) if isinstance(x, ast.Call) and isinstance(x.func, ast.Attribute) and x.func.attr == "copy" and "interrupt" in ast.unparse(x.func.value)]
+    rep.saw("functions", fd.ref)
+    rep.note(f"{fd.ref}: {len(copies)} site(s) copying a shared interrupt object")
+    for c in classes:
+        T = c.find_method("copy")
+        I = c.find_method("__init__")
+        if T is None:
+            raise AnalysisError(f"{c.ref}: copy not resolvable")
+        rep.saw("interrupt copies", f"{c.name} -> {T.qualname}")
+        rets = [x for x in ast.walk(T.node) if isinstance(x, ast.Return) and x.value is not None]
+        if not rets:
+            raise AnalysisError(f"{T.ref}: no return value")
+        problems = []
+        for r in rets:
+            v = r.value
+            if isinstance(v, ast.Call) and dotted(v.func) in ("copy.copy", "copy.deepcopy") and len(v.args) == 1 and is_name(v.args[0], "self"):
+                continue  # whole object
+            is_ctor = isinstance(v, ast.Call) and (
+                (isinstance(v.func, ast.Attribute) and v.func.attr == "__class__" and is_name(v.func.value, "self"))
+                or (isinstance(v.func, ast.Call) and dotted(v.func.func) == "type" and len(v.func.args) == 1 and is_name(v.func.args[0], "self"))
+            )
+            if not is_ctor:
+                raise AnalysisError(f"{T.ref}: `return {ast.unparse(v)}` is neither a generic copy of self nor `self.__class__(...)`")
+            if I is None:
+                raise AnalysisError(f"{c.ref}: constructor not resolvable")
+            a = I.node.args
+            if a.vararg or a.kwarg or any(isinstance(x, ast.Starred) for x in v.args) or any(k.arg is None for k in v.keywords):
+                raise AnalysisError(f"{T.ref}/{I.ref}: star arguments are outside the grammar of the rule")
+            pos = [p.arg for p in a.posonlyargs + a.args][1:]
+            allp = pos + [p.arg for p in a.kwonlyargs]
+            passed = dict(zip(pos, v.args))
+            passed.update({k.arg: k.value for k in v.keywords})
+            for p_ in allp:
+                if p_ not in passed:
+                    problems.append((p_, f"constructor parameter `{p_}` of {I.qualname} is not passed by `{ast.unparse(v)}`: the copy falls back to the default", r.lineno))
+                    continue
+                reads = {x.attr for x in ast.walk(passed[p_]) if isinstance(x, ast.Attribute) and is_name(x.value, "self")}
+                if not reads:
+                    problems.append((p_, f"constructor parameter `{p_}` is filled with `{ast.unparse(passed[p_])}`, which does not read the object being copied", r.lineno))
+        rep.oblige(f"interrupt-copy:{c.name}: the copy carries every constructor parameter", not problems, [p[1] for p in problems])
+        for p_, msg, line in problems:
+            rep.violation("C08.interrupt-copy", f"{T.ref}::{c.name}::{p_}", f"{c.name}.copy ({T.qualname}): {msg}; trackers sharing this interrupt object (TrackerCollection.from_data copies it for every tracker after the first) are served on a different schedule", line=line)
+
+
+
 def check(tier: str) -> Report:
     rep = Report("C08", tier, "other", "static: control-flow graph queries (dominance, post-dominance, path counting, reachability) + reaching definitions")
     rep.explanation = (
@@ -857,6 +917,7 @@ def check(tier: str) -> Report:
     check_storage_tracker(rep, ix)
     check_stepper_rounding(rep, ix)
     check_adaptive_flag_declared(rep, ix)
+    check_interrupt_copies(rep, ix)
     rep.assumptions += [
         "exceptions other than those raised by calls inside a try body / explicit raise are not modelled",
         "tracker.handle raises only StopIteration (or subclasses) to request a stop; other exceptions abort the run",
